@@ -1,16 +1,17 @@
-import ExprModel.Types.Table
+import ExprModel.Types.Checker
 /- driver handlers for the type / name-resolution model (C16) -/
 namespace ExprModel.Drv
 open ExprModel
 
 def bad : Sexp := .list [.atom "bad-request"]
 
-/-- `asis` | `repaired`, optionally suffixed `-rev` (iterate Go maps in reverse order) -/
+/-- `asis` (the code's current flags; `repaired` is an alias) | `aswas` (the pinned snapshot before the
+fixes), optionally suffixed `-rev` (iterate Go maps in reverse order) -/
 def defectsOfAtom : String → Option (Defects × (Table → Table))
-  | "asis" => some (.asIs, id)
-  | "repaired" => some (.repaired, id)
-  | "asis-rev" => some (.asIs, List.reverse)
-  | "repaired-rev" => some (.repaired, List.reverse)
+  | "asis" | "repaired" => some (.asIs, id)
+  | "aswas" => some (.asWas, id)
+  | "asis-rev" | "repaired-rev" => some (.asIs, List.reverse)
+  | "aswas-rev" => some (.asWas, List.reverse)
   | _ => none
 
 def entriesOfSexp (xs : List Sexp) : Option (List (String × Option Ty)) :=
@@ -97,8 +98,45 @@ def handleTypes : List Sexp → Sexp
     | _, _, _ => bad
   | _ => bad
 
+/-! ### C03: the checker -/
+
+def tdefectsOfAtom : String → Option TDefects
+  | "asis" => some .asIs
+  | "aswas" => some .asWas
+  | "repaired" => some .repaired
+  | _ => none
+
+def expectOfAtom : String → Option Expect
+  | "none" => some .none | "bool" => some .bool | "int64" => some .int64 | "float64" => some .float64
+  | _ => none
+
+/-- `expr.Env(env)`: strict, the types table of the environment, the default type of a typed map -/
+def cfgOfEnv (dn : Defects) (dt : TDefects) (e : Env) (strict : Bool) (ex : Expect) : CheckCfg :=
+  { types := createTypesTable dn id e
+    strict := strict
+    defaultType :=
+      match e.ty with
+      | some t => if t != .map .string interfaceType && t.kind == .map then t.elem? else none
+      | none => none
+    expect := ex, dn := dn, dt := dt }
+
+def locToSexp (l : Loc) : List Sexp := [Sexp.nat l.line, Sexp.nat l.col]
+
+/-- `(c03-check <asis|aswas|repaired> <env> <strict> <expect> <node>)` -/
+def handleCheck : List Sexp → Sexp
+  | [.atom "c03-check", .atom d, e, strict, .atom ex, n] =>
+    match defectsOfAtom d, tdefectsOfAtom d, envOfSexp e, strict.asBool, expectOfAtom ex, Node.ofSexp n with
+    | some (dn, _), some dt, some e, some strict, some ex, some n =>
+      match check (cfgOfEnv dn dt e strict ex) n with
+      | .ok n' t => .list [.atom "ok", Ty.optToSexp t, n'.toSexp]
+      | .error (some l) c n' => .list ([.atom "err"] ++ locToSexp l ++ [.atom c.name, n'.toSexp])
+      | .error none c n' => .list [.atom "err", .atom "-1", .atom "-1", .atom c.name, n'.toSexp]
+      | .panic _ => .list [.atom "panic"]
+    | _, _, _, _, _, _ => bad
+  | _ => bad
+
 def typesHandlers : List (String × (List Sexp → Sexp)) :=
   [("c16-table", handleTypes), ("c16-fields", handleTypes), ("c16-mset", handleTypes),
-   ("c16-names", handleTypes), ("c16-member", handleTypes)]
+   ("c16-names", handleTypes), ("c16-member", handleTypes), ("c03-check", handleCheck)]
 
 end ExprModel.Drv
